@@ -155,6 +155,20 @@ fn linear_sweep(ctx: &Ctx, cfg: &Config, label: &str) {
             ops.push(Op::TRead { side: r, msg: Msg::Last(w), cap: Cap::Roomy });
             fails(w, &mut ops);
         }
+        // exhaustion is a property of the counter value, not a latch: once the counters are set elsewhere
+        // (explicit receiving-nonce setting; the sender through the hook) traffic resumes and counts on
+        ops.push(Op::SetSendNonce { side: w, n: 1000 });
+        ops.push(Op::SetRecvNonce { side: r, n: 1000 });
+        for _ in 0..3 {
+            ops.push(Op::TWrite { side: w, plen: 3, cap: Cap::Roomy });
+            ops.push(Op::TRead { side: r, msg: Msg::Last(w), cap: Cap::Roomy });
+        }
+        // ... also after a visit to the reserved value with a rejected call there
+        ops.push(Op::SetRecvNonce { side: r, n: u64::MAX });
+        ops.push(Op::TRead { side: r, msg: Msg::Last(w), cap: Cap::Roomy });
+        ops.push(Op::SetRecvNonce { side: r, n: 1003 });
+        ops.push(Op::TWrite { side: w, plen: 3, cap: Cap::Roomy });
+        ops.push(Op::TRead { side: r, msg: Msg::Last(w), cap: Cap::Roomy });
     }
     let e = sess::run(cfg, &ops);
     ctx.add(&ctx.evaluations, e.steps.len() as u64);
